@@ -31,6 +31,10 @@ AutoCall == Is("call", "addauto") /\ UNCHANGED <<addCalled, addDone, rmCalled, r
 AutoRet  == Is("ret", "addauto") /\ Ev.ok /\ Ev.id \notin issued
             /\ issued' = issued \cup {Ev.id} /\ addCalled' = addCalled \cup {Ev.id} /\ addDone' = addDone \cup {Ev.id}
             /\ UNCHANGED <<rmCalled, rmDone, must, never, seen>>
+\* an id generated through another instance (a second index, a store, a bare node constructor) while this one is in use
+SideCall == Is("call", "sideauto") /\ UNCHANGED <<addCalled, addDone, rmCalled, rmDone, must, never, issued, seen>>
+SideRet  == Is("ret", "sideauto") /\ Ev.ok /\ Ev.id \notin issued /\ issued' = issued \cup {Ev.id}
+            /\ UNCHANGED <<addCalled, addDone, rmCalled, rmDone, must, never, seen>>
 RmCall == /\ Is("call", "remove") /\ rmCalled' = rmCalled \cup {Ev.id}
           /\ must' = [c \in DOMAIN must |-> must[c] \ {Ev.id}]
           /\ UNCHANGED <<addCalled, addDone, rmDone, never, issued, seen>>
@@ -57,7 +61,7 @@ SearchRet == /\ Is("ret", "search") /\ Ev.ok
 End == /\ l <= Len(Trace) /\ Ev.ev = "end" /\ l' = l + 1 /\ ~Ev.deadlock /\ ~Ev.panic
        /\ seen \subseteq addCalled            \* nothing that was never added was ever returned (ids generated by Add are known only at its return)
        /\ UNCHANGED <<addCalled, addDone, rmCalled, rmDone, must, never, issued, seen>>
-Next == Reset \/ AddCall \/ AddRet \/ AutoCall \/ AutoRet \/ RmCall \/ RmRet \/ Other \/ SearchCall \/ SearchRet \/ End
+Next == Reset \/ AddCall \/ AddRet \/ AutoCall \/ AutoRet \/ SideCall \/ SideRet \/ RmCall \/ RmRet \/ Other \/ SearchCall \/ SearchRet \/ End
 Spec == Init /\ [][Next]_vars
 Accepted == LET d == TLCGet("stats").diameter IN PrintT("CONSUMED " \o ToString(d - 1))
 =============================================================================
